@@ -3,6 +3,7 @@ import GmQuic.Lemmas.FlowStream
 import GmQuic.Lemmas.FlowRcvr
 import GmQuic.Lemmas.FlowRecverObs
 import GmQuic.Lemmas.FlowSender
+import GmQuic.Lemmas.FlowRevise
 /-!
 C11 — flow-control limits are never exceeded and violations are detected.
 Property theorems only (helper lemmas: `GmQuic/Lemmas/Flow*.lean`).
@@ -465,3 +466,73 @@ example : let s := Sndr.run 50 [.half (.write 80), .half (.emit 0 30 false 100),
     s.rst = some 30 ∧ s.half.charged = 30 ∧ s.half.emitted = [(0, 30)] := by decide
 
 end GmQuic.StreamWindow
+
+/-! ## Part 6 — the remembered-parameters (0-RTT) path: `DataStreams::revise_params` (run `C11s`)
+
+A resuming client opens streams and sends under REMEMBERED limits (`pre`), then the handshake completes and
+`revise_params(rejected, fresh windows, fresh stream counts)` runs once, then anything (`post`: more streams,
+writes, assembly, MAX_STREAM_DATA, MAX_STREAMS re-admitting streams above a lowered count, cancel, …).
+The ghost `granted` of a stream is the limit its peer most recently advertised for it: after a rejection
+the fresh `initial_max_stream_data_*` of its kind, raised by every later MAX_STREAM_DATA
+(`Sndr.revise`, `Sndr.step_granted`). -/
+namespace GmQuic.StreamRevise
+open GmQuic.StreamWindow GmQuic.Sid
+
+/-- For ALL histories — any number of streams opened before the revision, 0-RTT accepted or rejected,
+fresh limits lower / equal / higher than the remembered ones, stream counts lowered below what is open —
+no stream ever emits beyond the limit most recently advertised for it, and its window never exceeds it. -/
+theorem limits_respected_after_rejected_0rtt (mb0 mu0 wb0 wu0 : Nat) (pre post : List ZOp) (rej : Bool)
+    (fb fu mb mu : Nat) :
+    let e := (((ZEp.init mb0 mu0 wb0 wu0).run pre).revise rej fb fu mb mu).run post
+    ∀ z ∈ e.ss, (∀ r ∈ z.s.half.emitted, r.2 ≤ z.s.half.granted) ∧
+      z.s.half.maxData ≤ z.s.half.granted := by
+  intro e z hz
+  have hp := preInv_run pre _ (preInv_init mb0 mu0 wb0 wu0)
+  have hg : Good e := good_run post _ (revise_good _ rej fb fu mb mu hp)
+  have hi := (hg z hz).half
+  refine ⟨fun r hr => ?_, hi.maxGr⟩
+  exact Nat.le_trans (hi.emHi r hr).2 (Nat.le_trans hi.hiMax hi.maxGr)
+
+/-- A rejection restarts EVERY stream opened under the remembered parameters (none is skipped, whatever
+the fresh stream count): nothing counts as sent, window = advertised limit = the fresh value of its kind. -/
+theorem rejection_restarts_every_stream (mb0 mu0 wb0 wu0 : Nat) (pre : List ZOp) (fb fu mb mu : Nat) :
+    let e0 := (ZEp.init mb0 mu0 wb0 wu0).run pre
+    let e := e0.revise true fb fu mb mu
+    e.ss.length = e0.ss.length ∧
+    ∀ z ∈ e.ss, z.s.rst = none →
+      z.s.half.granted = (match z.dir with | .bi => fb | .uni => fu) ∧
+      z.s.half.maxData = z.s.half.granted ∧ z.s.half.emitted = [] ∧ z.s.half.sentHi = 0 := by
+  intro e0 e
+  have hp : PreInv e0 := preInv_run pre _ (preInv_init mb0 mu0 wb0 wu0)
+  refine ⟨by simp [e, ZEp.revise], ?_⟩
+  intro z hz hr
+  simp only [e, ZEp.revise, List.mem_map] at hz
+  obtain ⟨z0, hz0, rfl⟩ := hz
+  have h1 := hp.below z0 hz0
+  have h2 := hp.within z0.dir
+  unfold Local.openedStreams at hr ⊢
+  cases hd : z0.dir <;> simp only [hd] at h1 h2 hr ⊢
+  · have hc : z0.idx < min (e0.ids.unalloc.get Dir.bi) (e0.ids.max.get Dir.bi) := by omega
+    rw [if_pos hc] at hr ⊢
+    have hr0 : z0.s.rst = none := by
+      unfold Sndr.revise at hr
+      split at hr <;> exact hr
+    obtain ⟨a, b, c, d, _⟩ := z0.s.revise_rejected fb hr0
+    exact ⟨a, by rw [b, a], c, d⟩
+  · have hc : z0.idx < min (e0.ids.unalloc.get Dir.uni) (e0.ids.max.get Dir.uni) := by omega
+    rw [if_pos hc] at hr ⊢
+    have hr0 : z0.s.rst = none := by
+      unfold Sndr.revise at hr
+      split at hr <;> exact hr
+    obtain ⟨a, b, c, d, _⟩ := z0.s.revise_rejected fu hr0
+    exact ⟨a, by rw [b, a], c, d⟩
+
+example : ((((ZEp.init 10 10 1000 1000).run
+      [.openS .uni, .openS .uni, .snd .uni 0 (.half (.write 800)), .snd .uni 1 (.half (.write 800)),
+       .snd .uni 0 (.half (.emit 0 800 false 5000))]).revise true 300 300 1 1).run
+      [.snd .uni 1 (.half (.emit 0 800 false 5000)), .maxStreams .uni 4,
+       .snd .uni 1 (.half (.emit 0 800 false 5000)), .snd .uni 1 (.half (.emit 0 300 false 5000))]).ss.map
+        (fun z => (z.idx, z.s.half.maxData, z.s.half.emitted)) =
+      [(0, 300, []), (1, 300, [(0, 300)])] := by decide
+
+end GmQuic.StreamRevise
